@@ -71,6 +71,10 @@ pub struct PCfg {
     pub flag: bool,
     /// AIGER: use the streaming section readers instead of parse()
     pub sections: bool,
+    /// AIGER section readers: two bits per section (inputs, latches, outputs, bad, constraints, justice sizes,
+    /// justice literals, fairness, gates): 0 = read every entry, 1 = read one entry then move on to the next
+    /// section (the reader skips the rest itself), 2 = move on at once
+    pub skip: u32,
 }
 
 impl PCfg {
@@ -91,7 +95,9 @@ impl PCfg {
                 ""
             },
             if self.pk.is_aiger() {
-                if self.sections {
+                if self.sections && self.skip != 0 {
+                    "/sections(some skipped)"
+                } else if self.sections {
                     "/sections"
                 } else {
                     "/parse()"
@@ -102,7 +108,11 @@ impl PCfg {
         )
     }
     pub fn code(&self) -> u64 {
-        (self.pk as u64) | (self.lt as u64) << 4 | (self.flag as u64) << 8 | (self.sections as u64) << 9
+        (self.pk as u64)
+            | (self.lt as u64) << 4
+            | (self.flag as u64) << 8
+            | (self.sections as u64) << 9
+            | (self.skip as u64) << 10
     }
 }
 
@@ -158,6 +168,8 @@ impl Ctor {
 macro_rules! conv_err {
     ($name:ident, $krate:ident) => {
         fn $name(e: $krate::ParseError) -> Outcome {
+            // what a user prints; exercised (under the sanitizers too), no verdict hangs on its format
+            std::hint::black_box(e.to_string());
             match *e {
                 $krate::InnerParseError::SyntaxError(s) => Outcome::Syntax {
                     line: s.location.line,
@@ -178,7 +190,7 @@ fn line_reader(src: Src, ctor: Ctor) -> Option<LineReader<'static>> {
         Ctor::Chunk(c) => {
             let mut r = DeferredReader::from_read(src);
             r.set_chunk_size(c);
-            Some(LineReader::new(r))
+            Some(if c % 2 == 1 { LineReader::from(r) } else { LineReader::new(r) })
         }
         _ => None,
     }
@@ -382,6 +394,7 @@ fn aig_header_str(h: &flussab_aiger::binary::Header) -> String {
 
 fn run_aag<L: flussab_aiger::Lit + Display>(
     sections: bool,
+    skip: u32,
     ctor: Ctor,
     src: Src,
     on_item: &mut dyn FnMut(&str),
@@ -438,41 +451,109 @@ fn run_aag<L: flussab_aiger::Lit + Display>(
         }
         return Outcome::End;
     }
+    let first_header = s.clone();
     let mut r = tri!(p.inputs());
-    while let Some(x) = tri!(r.next_input()) {
+    // the section readers give access to the parser (Deref): the header seen there is the same one
+    if aag_header_str(r.header()) != first_header {
+        on_item("HEADER-SEEN-THROUGH-SECTION-READER-DIFFERS");
+    }
+    let mode = (skip >> 0) & 3;
+    let mut n = 0;
+    while mode != 2 {
+        let Some(x) = tri!(r.next_input()) else { break };
         emit!(on_item, s, "IN {}", x);
+        n += 1;
+        if mode == 1 && n >= 1 {
+            break;
+        }
     }
     let mut r = tri!(r.latches());
-    while let Some(l) = tri!(r.next_latch()) {
+    let mode = (skip >> 2) & 3;
+    let mut n = 0;
+    while mode != 2 {
+        let Some(l) = tri!(r.next_latch()) else { break };
         emit!(on_item, s, "LATCH {} {} {}", l.state, l.next_state, init_str(l.initialization));
+        n += 1;
+        if mode == 1 && n >= 1 {
+            break;
+        }
     }
     let mut r = tri!(r.outputs());
-    while let Some(x) = tri!(r.next_output()) {
+    let mode = (skip >> 4) & 3;
+    let mut n = 0;
+    while mode != 2 {
+        let Some(x) = tri!(r.next_output()) else { break };
         emit!(on_item, s, "OUT {}", x);
+        n += 1;
+        if mode == 1 && n >= 1 {
+            break;
+        }
     }
     let mut r = tri!(r.bad_state_properties());
-    while let Some(x) = tri!(r.next_bad_state_property()) {
+    let mode = (skip >> 6) & 3;
+    let mut n = 0;
+    while mode != 2 {
+        let Some(x) = tri!(r.next_bad_state_property()) else { break };
         emit!(on_item, s, "BAD {}", x);
+        n += 1;
+        if mode == 1 && n >= 1 {
+            break;
+        }
     }
     let mut r = tri!(r.invariant_constraints());
-    while let Some(x) = tri!(r.next_invariant_constraint()) {
+    let mode = (skip >> 8) & 3;
+    let mut n = 0;
+    while mode != 2 {
+        let Some(x) = tri!(r.next_invariant_constraint()) else { break };
         emit!(on_item, s, "CONSTR {}", x);
+        n += 1;
+        if mode == 1 && n >= 1 {
+            break;
+        }
     }
     let mut r = tri!(r.justice_properties());
-    while let Some(x) = tri!(r.next_justice_property_size()) {
+    let mode = (skip >> 10) & 3;
+    let mut n = 0;
+    while mode != 2 {
+        let Some(x) = tri!(r.next_justice_property_size()) else { break };
         emit!(on_item, s, "JSIZE {}", x);
+        n += 1;
+        if mode == 1 && n >= 1 {
+            break;
+        }
     }
     let mut r = tri!(r.justice_property_local_fairness_constraints());
-    while let Some(x) = tri!(r.next_justice_property_local_fairness_constraint()) {
+    let mode = (skip >> 12) & 3;
+    let mut n = 0;
+    while mode != 2 {
+        let Some(x) = tri!(r.next_justice_property_local_fairness_constraint()) else { break };
         emit!(on_item, s, "JLIT {}", x);
+        n += 1;
+        if mode == 1 && n >= 1 {
+            break;
+        }
     }
     let mut r = tri!(r.fairness_constraints());
-    while let Some(x) = tri!(r.next_fairness_constraint()) {
+    let mode = (skip >> 14) & 3;
+    let mut n = 0;
+    while mode != 2 {
+        let Some(x) = tri!(r.next_fairness_constraint()) else { break };
         emit!(on_item, s, "FAIR {}", x);
+        n += 1;
+        if mode == 1 && n >= 1 {
+            break;
+        }
     }
     let mut r = tri!(r.and_gates());
-    while let Some(g) = tri!(r.next_and_gate()) {
+    let mode = (skip >> 16) & 3;
+    let mut n = 0;
+    while mode != 2 {
+        let Some(g) = tri!(r.next_and_gate()) else { break };
         emit!(on_item, s, "AND {} {} {}", g.output, g.inputs[0], g.inputs[1]);
+        n += 1;
+        if mode == 1 && n >= 1 {
+            break;
+        }
     }
     let mut r = tri!(r.symbols());
     loop {
@@ -499,6 +580,7 @@ fn run_aag<L: flussab_aiger::Lit + Display>(
 
 fn run_aig<L: flussab_aiger::Lit + Display>(
     sections: bool,
+    skip: u32,
     ctor: Ctor,
     src: Src,
     on_item: &mut dyn FnMut(&str),
@@ -553,36 +635,92 @@ fn run_aig<L: flussab_aiger::Lit + Display>(
         return Outcome::End;
     }
     let mut r = tri!(p.latches());
-    while let Some(l) = tri!(r.next_latch()) {
+    let mode = (skip >> 2) & 3;
+    let mut n = 0;
+    while mode != 2 {
+        let Some(l) = tri!(r.next_latch()) else { break };
         emit!(on_item, s, "LATCH {} {}", l.next_state, init_str(l.initialization));
+        n += 1;
+        if mode == 1 && n >= 1 {
+            break;
+        }
     }
     let mut r = tri!(r.outputs());
-    while let Some(x) = tri!(r.next_output()) {
+    let mode = (skip >> 4) & 3;
+    let mut n = 0;
+    while mode != 2 {
+        let Some(x) = tri!(r.next_output()) else { break };
         emit!(on_item, s, "OUT {}", x);
+        n += 1;
+        if mode == 1 && n >= 1 {
+            break;
+        }
     }
     let mut r = tri!(r.bad_state_properties());
-    while let Some(x) = tri!(r.next_bad_state_property()) {
+    let mode = (skip >> 6) & 3;
+    let mut n = 0;
+    while mode != 2 {
+        let Some(x) = tri!(r.next_bad_state_property()) else { break };
         emit!(on_item, s, "BAD {}", x);
+        n += 1;
+        if mode == 1 && n >= 1 {
+            break;
+        }
     }
     let mut r = tri!(r.invariant_constraints());
-    while let Some(x) = tri!(r.next_invariant_constraint()) {
+    let mode = (skip >> 8) & 3;
+    let mut n = 0;
+    while mode != 2 {
+        let Some(x) = tri!(r.next_invariant_constraint()) else { break };
         emit!(on_item, s, "CONSTR {}", x);
+        n += 1;
+        if mode == 1 && n >= 1 {
+            break;
+        }
     }
     let mut r = tri!(r.justice_properties());
-    while let Some(x) = tri!(r.next_justice_property_size()) {
+    let mode = (skip >> 10) & 3;
+    let mut n = 0;
+    while mode != 2 {
+        let Some(x) = tri!(r.next_justice_property_size()) else { break };
         emit!(on_item, s, "JSIZE {}", x);
+        n += 1;
+        if mode == 1 && n >= 1 {
+            break;
+        }
     }
     let mut r = tri!(r.justice_property_local_fairness_constraints());
-    while let Some(x) = tri!(r.next_justice_property_local_fairness_constraint()) {
+    let mode = (skip >> 12) & 3;
+    let mut n = 0;
+    while mode != 2 {
+        let Some(x) = tri!(r.next_justice_property_local_fairness_constraint()) else { break };
         emit!(on_item, s, "JLIT {}", x);
+        n += 1;
+        if mode == 1 && n >= 1 {
+            break;
+        }
     }
     let mut r = tri!(r.fairness_constraints());
-    while let Some(x) = tri!(r.next_fairness_constraint()) {
+    let mode = (skip >> 14) & 3;
+    let mut n = 0;
+    while mode != 2 {
+        let Some(x) = tri!(r.next_fairness_constraint()) else { break };
         emit!(on_item, s, "FAIR {}", x);
+        n += 1;
+        if mode == 1 && n >= 1 {
+            break;
+        }
     }
     let mut r = tri!(r.and_gates());
-    while let Some(g) = tri!(r.next_and_gate()) {
+    let mode = (skip >> 16) & 3;
+    let mut n = 0;
+    while mode != 2 {
+        let Some(g) = tri!(r.next_and_gate()) else { break };
         emit!(on_item, s, "AND {} {}", g.inputs[0], g.inputs[1]);
+        n += 1;
+        if mode == 1 && n >= 1 {
+            break;
+        }
     }
     let mut r = tri!(r.symbols());
     loop {
@@ -795,8 +933,8 @@ pub fn run(cfg: PCfg, ctor: Ctor, src: Src, on_item: &mut dyn FnMut(&str)) -> Ou
         PK::Wcnf => by_dimacs_type!(run_wcnf, cfg.lt, cfg.flag, ctor, src, on_item),
         PK::Gcnf => by_dimacs_type!(run_gcnf, cfg.lt, cfg.flag, ctor, src, on_item),
         PK::Log => by_dimacs_type!(run_log, cfg.lt, cfg.flag, ctor, src, on_item),
-        PK::Aag => by_aiger_type!(run_aag, cfg.lt, cfg.sections, ctor, src, on_item),
-        PK::Aig => by_aiger_type!(run_aig, cfg.lt, cfg.sections, ctor, src, on_item),
+        PK::Aag => by_aiger_type!(run_aag, cfg.lt, cfg.sections, cfg.skip, ctor, src, on_item),
+        PK::Aig => by_aiger_type!(run_aig, cfg.lt, cfg.sections, cfg.skip, ctor, src, on_item),
         PK::Btor2 => run_btor2(ctor, src, on_item),
     }
 }
@@ -819,5 +957,53 @@ pub fn random_cfg(rng: &mut crate::prng::Rng, pk: PK) -> PCfg {
         lt: rng.below(pk.n_lit_types() as u64) as u8,
         flag: (pk.is_dimacs() || pk == PK::Log) && rng.chance(1, 3),
         sections: pk.is_aiger() && rng.chance(1, 2),
+        skip: 0,
     }
+}
+
+/// like `random_cfg`, but AIGER section runs sometimes skip (parts of) sections
+/// What a section-API run that skips per `skip` must hand out, given the items of the full run:
+/// mode 1 keeps only the first entry of a section, mode 2 none; header, symbols and comment are kept.
+pub fn filter_skipped(items: &[String], skip: u32) -> Vec<String> {
+    const SECTIONS: [&str; 9] = ["IN ", "LATCH ", "OUT ", "BAD ", "CONSTR ", "JSIZE ", "JLIT ", "FAIR ", "AND "];
+    let mut seen = [0u32; 9];
+    let mut out = vec![];
+    for it in items {
+        match SECTIONS.iter().position(|p| it.starts_with(p)) {
+            None => out.push(it.clone()),
+            Some(i) => {
+                let mode = (skip >> (2 * i)) & 3;
+                seen[i] += 1;
+                if mode == 0 || (mode == 1 && seen[i] == 1) {
+                    out.push(it.clone());
+                }
+            }
+        }
+    }
+    out
+}
+
+/// a random non-zero skip pattern
+pub fn random_skip(rng: &mut crate::prng::Rng) -> u32 {
+    let mut skip = 0;
+    while skip == 0 {
+        for i in 0..9 {
+            if rng.chance(1, 3) {
+                skip |= (1 + rng.below(2) as u32) << (2 * i);
+            }
+        }
+    }
+    skip
+}
+
+pub fn random_cfg_skip(rng: &mut crate::prng::Rng, pk: PK) -> PCfg {
+    let mut c = random_cfg(rng, pk);
+    if c.sections && rng.chance(1, 2) {
+        for i in 0..9 {
+            if rng.chance(1, 3) {
+                c.skip |= (1 + rng.below(2) as u32) << (2 * i);
+            }
+        }
+    }
+    c
 }
